@@ -1,3 +1,4 @@
 import HdVerif.Model.TilingJson
-/-! JSON-lines driver of the tiling model (C12); same entry points as `Drivers/C04.lean`. -/
-def main : IO Unit := HdVerif.Drv.run HdVerif.TilingDrv.handlers
+import HdVerif.Model.TilingSlideJson
+/-! JSON-lines driver of the tiling model (C12): the entry points of `Drivers/C04.lean` plus the C12-only ones. -/
+def main : IO Unit := HdVerif.Drv.run (HdVerif.TilingDrv.handlers ++ HdVerif.TilingDrv.slideHandlers)
